@@ -121,7 +121,10 @@ def tree_part(ck, n, nwalks, seed, corrupt=None):
                 got = None
                 for how, t2 in roundtrips(t):
                     count[0] += 1
-                    m = same_concrete(t, t2, dist)
+                    try:
+                        m = same_concrete(t, t2, dist)
+                    except absstate.Inconsistent as ex:
+                        m = "the restored tree is malformed: %s" % ex
                     if corrupt == "label" and how == "pickle" and count[0] == 50:
                         m = "injected"
                     if m:
@@ -225,6 +228,50 @@ def chain_part(ck, seed, thorough, corrupt=None):
         ck.sample({"options": spec_traces[0]["opt"], "events": spec_traces[0]["events"][:14]})
 
 
+def pruned_big_part(ck, seed, ntrees):
+    """Trees of 8 clones from which a clade of three and more clones was cut (several unused slots in the underlying
+    graph, some beyond the number of remaining clones) or collapsed into one clone, and the cut subtrees themselves:
+    every serialisation route must give back the same tree."""
+    from .. import gridoracle
+    n = 8
+    data = gridoracle.data_from_tables(gridoracle.int_tables(n, 1, 4, seed + 9), outlier_prob=0.2)
+    dist = c06.make_dist()
+    rs = np.random.RandomState(seed + 77)
+    nrt = 0
+    for _ in range(ntrees):
+        parent = [-1] + [int(rs.randint(-1, i)) for i in range(1, n)]
+        desc = {i: {i} for i in range(n)}
+        for i in reversed(range(n)):
+            if parent[i] >= 0:
+                desc[parent[i]] |= desc[i]
+        key = absstate.canon({"f": [sorted(v) for v in desc.values()], "o": []})
+        base = absstate.build(key, data)
+        _, conc = absstate.project(base, full=False)
+        name_of = {conc["clade"][m]: m for m in conc["names"]}
+        for v in [c for c in key[0] if sum(1 for x in key[0] if x <= c) >= 3 and len(c) < n]:
+            t = base.copy()
+            sub = t.get_subtree(name_of[v])
+            par_ = t.get_parent(name_of[v])
+            t.remove_subtree(sub)
+            objs = [("tree with a clade of %d clones cut out" % sum(1 for x in key[0] if x <= v), t), ("the cut subtree", sub)]
+            t2 = t.copy()
+            t2.add_subtree(absstate.build((frozenset([v]), frozenset()), [dp for dp in data if dp.idx in v]), parent=par_)
+            t2.update()
+            objs.append(("tree with that clade collapsed into one clone", t2))
+            for label, obj in objs:
+                for how, back in roundtrips(obj):
+                    nrt += 1
+                    try:
+                        m = same_concrete(obj, back, dist)
+                    except Exception as ex:  # noqa
+                        m = "%s: %s" % (type(ex).__name__, ex)
+                    if m:
+                        ck.violation("C15|tree|round_trip|pruned", "%s round trip of a %s (from %s): %s" % (how, label, absstate.key_str(key), m), {"state": absstate.to_json(key), "cut": sorted(v), "route": how})
+                        break
+    ck.evaluations += nrt
+    ck.extra["round_trips_of_pruned_trees"] = nrt
+
+
 def run(corrupt=None):
     ck = Check("C15")
     env.use_repo()
@@ -239,6 +286,7 @@ def run(corrupt=None):
     tree_part(ck, 4, (150 if thorough else 40), ck.seed, corrupt)
     if thorough:
         tree_part(ck, 5, 100, ck.seed + 1)
+    pruned_big_part(ck, ck.seed, (60 if thorough else 20))
     chain_part(ck, 1 + ck.seed, thorough, corrupt)
     ck.rule = ("(a) every state along in-place edit walks on 4-5 points x 3 serialisation routes + lock-step editing of the restored copy; "
                "(b) seeded chains over an option grid (proposal, outliers, concentration update, thinning, time limit, subtree probability), every entry; "
